@@ -177,3 +177,15 @@ Proof. vm_compute. reflexivity. Qed.
 Example C19_nonvacuous_type :
   load (firstn 4 mipband ++ "QXL # bad"%string :: skipn 5 mipband) = Failed 5 EProblemType.
 Proof. vm_compute. reflexivity. Qed.
+
+
+(* ---------------------------------------------------------------------------------------------
+   EVERY instance the QPLIB reader returns is VALID in the sense of C08 (LoadWf.v): positional
+   variable ids 0..n-1, constraint ids i and m+i, every used index below n (the model's index range
+   check; see the trusted-base note on indices beyond the declared size). *)
+Require Import Ommx.LoadWf.
+Theorem C19_loaded_instance_valid : forall ls R, load ls = Loaded R ->
+  QplibWf.inst_wf R /\ Validate.validate (QplibWf.to_instance R) = true.
+Proof. intros ls R H. split; [exact (QplibWf.qplib_load_wf ls R H)|exact (QplibWf.qplib_load_valid ls R H)]. Qed.
+Print Assumptions C19_loaded_instance_valid.
+Check QplibWf.qplib_nonvacuous.
